@@ -416,7 +416,7 @@ func (r *FnRun) checkFrameCall(st *State, site ssa.Instruction, items []modItem,
 					}
 				}
 			}
-			goal = sOr(append(ds, sx(">=", sx("rootid", it.ref), r.alloc0), sEq(it.ref, "null"))...)
+			goal = sOr(append(ds, sx(">=", sx("rootid", it.ref), r.alloc0), sEq(it.ref, "null"), sAnd(sx("(_ is fld)", it.ref), sEq(sx("parent", it.ref), "null")))...)
 		case "elems":
 			if it.elemInt {
 				goal = sOr(sx(">=", sx("rootid", it.sl.Bas), r.alloc0), sEq(it.sl.Len, "0"),
